@@ -420,6 +420,11 @@ func (n *StreamNet) DialContext(ctx context.Context, network, address string) (n
 
 // DialLink dials and also returns the Link for inspection.
 func (n *StreamNet) DialLink(address string) (*Conn, *Link, error) {
+	return n.DialLinkFrom(address, nil)
+}
+
+// DialLinkFrom dials from the given source IP (nil = the network's ClientIP).
+func (n *StreamNet) DialLinkFrom(address string, srcIP net.IP) (*Conn, *Link, error) {
 	addr, err := net.ResolveTCPAddr("tcp", address)
 	if err != nil {
 		return nil, nil, err
@@ -432,7 +437,10 @@ func (n *StreamNet) DialLink(address string) (*Conn, *Link, error) {
 	}
 	opts := n.opts
 	n.nextPort++
-	caddr := &net.TCPAddr{IP: append(net.IP(nil), n.ClientIP...), Port: n.nextPort}
+	if srcIP == nil {
+		srcIP = n.ClientIP
+	}
+	caddr := &net.TCPAddr{IP: append(net.IP(nil), srcIP...), Port: n.nextPort}
 	id := len(n.links)
 	bc, bs := opts.BufC2S, opts.BufS2C
 	if bc <= 0 {
